@@ -5,15 +5,15 @@ import re
 
 import facts
 import q
-from facts import walk, walk_with_path, peel, call_is, unblock, variant_of, strip_ref, subpat, pat_str, lit
+from facts import walk, walk_with_path, peel, call_is, unblock, variant_of, strip_ref, subpat, pat_str, lit, pat_binds, or_pats
 from show import show, is_debug_stmt
 
 PANIC_CALLEES = (
     ("unwrap", re.compile(r"(Option|Result)::<.*>::(unwrap|unwrap_err)$")),
     ("expect", re.compile(r"(Option|Result)::<.*>::(expect|expect_err)$")),
-    ("panic", re.compile(r"(core|std)::panicking::|::begin_panic|core::option::unwrap_failed|core::result::unwrap_failed|core::option::expect_failed")),
+    ("panic", re.compile(r"(core|std)::panicking::|::rt::panic_fmt|::rt::panic_display|::rt::begin_panic|::begin_panic|panic::panic_any|resume_unwind|process::(exit|abort)$|intrinsics::abort$|core::option::unwrap_failed|core::result::unwrap_failed|core::option::expect_failed")),
     ("index", re.compile(r"ops::(Index::index|IndexMut::index_mut)$")),
-    ("stdpanic", re.compile(r"(Vec::<.*>::(remove|insert|swap_remove|drain|split_off|swap)|String::(remove|insert|insert_str|drain|split_off|truncate|replace_range)|str::<impl str>::split_at|slice::<impl \[T\]>::(split_at|chunks|windows|copy_from_slice|swap)|RefCell::<.*>::(borrow|borrow_mut)|char::from_digit|Duration::|Instant::)$")),
+    ("stdpanic", re.compile(r"(Vec::<.*>::(remove|insert|swap_remove|drain|split_off|swap)|String::(remove|insert|insert_str|drain|split_off|truncate|replace_range)|str::<impl str>::split_at|slice::<impl \[T\]>::(split_at|split_at_mut|chunks|chunks_exact|rchunks|windows|copy_from_slice|clone_from_slice|swap|rotate_left|rotate_right)|RefCell::<.*>::(borrow|borrow_mut)|<impl char>::from_digit|char::from_digit|Iterator::step_by|Duration::\w+|Instant::\w+|mpsc::\w+::\w+|thread::\w+)$")),
 )
 
 TRAIT_DYN = ("document::Document::find", "value::Object::find", "value::Object::get", "value::Object::keys", "value::Object::len", "value::Array::iter", "value::Array::len", "value::AsValue::as_value")
@@ -116,6 +116,10 @@ def sites_of(F, fname):
             if is_tracing(t.get("exp")):
                 continue
             fn = t["fn"]
+            # overloaded arithmetic on time types panics on overflow (Duration - Duration, Instant - Duration, ...)
+            if re.search(r"ops::(Add|Sub|Mul|Div|AddAssign|SubAssign)::\w+$", fn or "") and re.search(r"time::(Duration|Instant|SystemTime)", str((t.get("gen") or [""])[0]) + str(t.get("res"))):
+                out.append(Site(fname, "stdpanic", fn, t["sp"], "", t.get("exp")))
+                continue
             for kind, rx in PANIC_CALLEES:
                 if rx.search(fn):
                     recv = t["args"][0].get("ty") if t.get("args") else None
@@ -395,6 +399,17 @@ def d_len1(F, s):
             f = peel(f)
             ok = False
             g = None
+            via_let = False
+            if f.get("k") == "Binary" and lit(f["rhs"]) and peel(f["lhs"]).get("k") == "Var":
+                # `let n = v.len(); .. if n == 1 { v.into_iter().next().expect(..) }` with v an immutable binding
+                body = F.fns[s.fn].body
+                init = q.let_init(body, peel(f["lhs"])["id"])
+                if init is not None and call_is(peel(init), "::len"):
+                    gv = q.var_id(peel(init)["args"][0])
+                    immut = any(pp.get("k") == "Bind" and pp.get("id") == gv and pp.get("mode", "").endswith("Not)") for pt in q.all_patterns(body) for pp in q._walk_pat(pt))
+                    if immut:
+                        f = dict(f, lhs=peel(init))
+                        via_let = True
             if f.get("k") == "Binary" and call_is(peel(f["lhs"]), "::len") and lit(f["rhs"]):
                 k = lit(f["rhs"])[1]
                 ok = (f["op"] == "Eq" and k >= 1) or (f["op"] == "Ge" and k >= 1) or (f["op"] == "Gt" and k >= 0)
@@ -459,31 +474,136 @@ def d_external(F, s):
         if s.fn.endswith(suf) and pred(s):
             # the yaml/json arm must really be the tail of the is_u64/is_i64/is_f64 chain
             if s.kind == "panic":
+                # known false here: n.is_X() or `let Some(_) = n.as_X()` for each of the three representations of a serde number
                 ff = [peel(e[1]) for e in q.context(s.path, s.node) if e[0] == "if" and not e[2]]
-                kinds = sorted((x.get("fn") or "").split("::")[-1] for x in ff if x.get("k") == "Call")
-                ids = {q.var_id(x["args"][0]) for x in ff if x.get("k") == "Call" and x.get("args")}
-                if kinds != ["is_f64", "is_i64", "is_u64"] or len(ids) != 1 or None in ids:
+                kinds, ids = [], set()
+                for x in ff:
+                    c = peel(x["arg"]) if x.get("k") == "LetCond" and variant_of(x["pat"]) == ("Option", "Some") else x
+                    m = re.search(r"Number::(?:is|as)_(u64|i64|f64)$", c.get("fn") or "") if c.get("k") == "Call" else None
+                    if m and ((x is c and "::is_" in c["fn"]) or (x is not c and "::as_" in c["fn"])):
+                        kinds.append(m.group(1))
+                        ids.add(q.var_id(c["args"][0]))
+                if sorted(kinds) != ["f64", "i64", "u64"] or len(ids) != 1 or None in ids:
                     return None
             return ("D-EXTERNAL", why)
     return None
 
 
 def d_rebuild(F, s):
+    """Regex rebuilt from the text of a regex that compiled before, with the same case flag:
+         site      RegexBuilder::new(&P).case_insensitive(I).build().expect(..)
+         P         an element of V, where `for ((.., I), V) in MAP`           (I = last component of the key)
+         MAP       is written only through MAP.entry((.., I')).or_insert(vec![]) buckets
+         bucket    receives only  R.as_str().to_owned()  with  Search::Regex(R, I')   in the enclosing arm pattern, or
+                                  p.to_owned()  for p in S.patterns()  with  Search::RegexSet(S, I')
+       so P compiled before under flag I."""
     n = s.node
-    if not (s.kind == "expect" and s.fn == "optimiser::shake_1"):
+    if s.kind != "expect" or not (n.get("k") == "Call" and n.get("args")):
         return None
-    sh = show(n)
-    m = re.match(r"<T, E>::expect\(RegexBuilder::build\(RegexBuilder::case_insensitive\(RegexBuilder::new\(Deref::deref\(pattern\)\), insensitive\)\), ", sh)
-    if not m:
+    chain = {}
+    x = peel(n["args"][0])
+    while x.get("k") == "Call" and "RegexBuilder::" in (x.get("fn") or ""):
+        chain[x["fn"].split("::")[-1]] = x
+        x = peel(x["args"][0]) if x["args"] else {}
+    if not {"build", "case_insensitive", "new"} <= set(chain):
         return None
     body = _enclosing_fn_body(F, s)
-    pushes = [show(x) for x in walk(body) if call_is(x, "::push") and show(x["args"][0]) == "patterns"]
-    okp = sorted(pushes) == sorted(["<T, A>::push(patterns, ToOwned::to_owned(Regex::as_str(r)))", "<T, A>::push(patterns, ToOwned::to_owned(pattern))"])
-    ent = [show(x) for x in walk(body) if call_is(x, "::entry") and show(x["args"][0]) == "patterns"]
-    oke = len(ent) == 2 and all(e.endswith("(field, cast, insensitive))") for e in ent)
-    if okp and oke:
-        return ("D-REBUILD", "pattern text comes from Regex::as_str()/RegexSet::patterns() of compiled regexes grouped by the same case flag; recompiling it with that flag cannot fail")
-    return None
+    pid = q.base_var(chain["new"]["args"][0], body)
+    iid = q.var_id(chain["case_insensitive"]["args"][1])
+    if pid is None or iid is None:
+        return None
+    # P is an element of V
+    vid = None
+    init = q.let_init(body, pid)
+    if init is not None:
+        e = peel(init)
+        if (call_is(e, "::expect") or call_is(e, "::unwrap")) and call_is(peel(e["args"][0]), "Iterator::next"):
+            vid = q.base_var(peel(peel(e["args"][0])["args"][0]), body)
+            it = peel(peel(e["args"][0])["args"][0])
+            if call_is(it, "IntoIterator::into_iter") or call_is(it, "::iter"):
+                vid = q.base_var(it["args"][0], body)
+    for c in q.context(s.path, n):
+        if c[0] == "for" and any(b[1] == pid for b in pat_binds(c[1])):
+            vid = q.loop_over({"iter": c[2], "pat": c[1]})[0]
+    if vid is None:
+        return None
+    # V and I come from one `for (key, V) in MAP` with I the last key component
+    mid = None
+    for c in q.context(s.path, n):
+        if c[0] != "for":
+            continue
+        pt = strip_ref(c[1])
+        if pt.get("k") == "Leaf" and len(pt["sub"]) == 2:
+            key, val = strip_ref(pt["sub"][0]["p"]), strip_ref(pt["sub"][1]["p"])
+            if val.get("k") == "Bind" and val["id"] == vid and key.get("k") == "Leaf" and key["sub"]:
+                last = strip_ref(key["sub"][-1]["p"])
+                if last.get("k") == "Bind" and last["id"] == iid:
+                    mid = q.loop_over({"iter": c[2], "pat": c[1]})[0]
+    if mid is None:
+        return None
+    # every write to MAP is entry(key).or_insert(..) and every bucket only receives text of compiled regexes under the key's flag
+    nent = 0
+    for x, path in walk_with_path(body):
+        if x.get("k") == "Borrow" and x.get("mut") and q.var_id(x["arg"]) == mid:
+            par = path[-1] if path else {}
+            if not call_is(par, "::entry"):
+                return None
+        if not (call_is(x, "::entry") and q.base_var(x["args"][0]) == mid):
+            continue
+        nent += 1
+        key = peel(x["args"][1])
+        kfields = key.get("fields") or key.get("elems") or []
+        kf = peel(kfields[-1]["e"] if kfields and isinstance(kfields[-1], dict) and "e" in kfields[-1] else kfields[-1]) if kfields else {}
+        kflag = q.var_id(kf)
+        # the regex bound beside that flag in the enclosing arm
+        rx = None
+        for c in q.context(path, x):
+            if c[0] == "arm":
+                for alt in or_pats(c[1]):
+                    for pp in q._walk_pat(alt):
+                        v = variant_of(pp)
+                        if v and v[0] == "Search" and v[1] in ("Regex", "RegexSet"):
+                            r0, f0 = strip_ref(subpat(pp, 0)), strip_ref(subpat(pp, 1))
+                            if f0 is not None and f0.get("k") == "Bind" and f0["id"] == kflag and r0 is not None and r0.get("k") == "Bind":
+                                rx = (v[1], r0["id"])
+        if rx is None:
+            return None
+        # the bucket: or_insert(entry) bound by a let (or used in place); all pushes in this arm go to it
+        arm_body = None
+        for c in reversed([p_ for p_ in path if p_.get("k") == "Match"]):
+            for a in c["arms"]:
+                if q.contains(a["body"], x):
+                    arm_body = a["body"]
+            if arm_body is not None:
+                break
+        if arm_body is None:
+            return None
+        pushes = [y for y in walk(arm_body) if call_is(y, "::push")]
+        if not pushes:
+            return None
+        for y, ypath in walk_with_path(arm_body):
+            if not call_is(y, "::push"):
+                continue
+            val = peel(y["args"][1])
+            if not (call_is(val, "ToOwned::to_owned") or call_is(val, "ToString::to_string") or call_is(val, "Clone::clone") or call_is(val, "String::from") or call_is(val, "From::from")):
+                return None
+            src = peel(val["args"][0])
+            if rx[0] == "Regex":
+                if not (call_is(src, "Regex::as_str") and q.base_var(src["args"][0], arm_body) == rx[1]):
+                    return None
+            else:
+                okp = False
+                for c in q.context(ypath, y):
+                    if c[0] == "for" and any(b[1] == q.base_var(src, arm_body) for b in pat_binds(c[1])):
+                        it = peel(c[2])
+                        while call_is(it, "::iter") or call_is(it, "IntoIterator::into_iter"):
+                            it = peel(it["args"][0])
+                        okp = call_is(it, "RegexSet::patterns") and q.base_var(it["args"][0], arm_body) == rx[1]
+                if not okp:
+                    return None
+    if nent < 1:
+        return None
+    return ("D-REBUILD", "pattern text comes from Regex::as_str()/RegexSet::patterns() of compiled regexes grouped by the same case flag; recompiling it with that flag cannot fail")
 
 
 def d_fromu32(F, s):
